@@ -166,6 +166,22 @@ func c18Run(w *fw.W, idx int) {
 		w.Count("not_failing_or_declined", 1)
 		return
 	}
+	// Programs on which the let* shared-scope deviation (C01's known finding) changes
+	// what fails are C01's business: here they would only repeat that finding.
+	inq := refint.New()
+	inq.Quirks = refint.Quirks{LetStarSharedScope: true}
+	_, qerr := func() (mv *refint.V, me *refint.Err) {
+		defer func() {
+			if rec := recover(); rec != nil {
+				me = &refint.Err{Cond: "<model panic>", Unsure: true}
+			}
+		}()
+		return inq.LoadForms(forms)
+	}()
+	if qerr == nil || qerr.Fuel || qerr.Unsure || qerr.Site != merr.Site || len(qerr.Stack) != len(merr.Stack) || qerr.Cond != merr.Cond {
+		w.Count("skipped_let*_shared_scope_changes_the_failure", 1)
+		return
+	}
 	off := rt.New(rt.Opts{MaxSteps: 400_000, Debugger: true, MaxPhys: 4000})
 	voff := off.Env.LoadString("c18", src)
 	c18ElideLog = map[c18Elided]bool{}
